@@ -580,6 +580,22 @@ func c15RunSess(in c15SessIn) (obs c15SessObs) {
 			}
 		case "quiet":
 			time.Sleep(450 * time.Millisecond)
+		case "gap":
+			time.Sleep(time.Duration(op.N) * time.Millisecond)
+		case "seen":
+			// no waiting: has some still-unacknowledged message been retransmitted since the scenario began?
+			// (used at the end of a steady stream of further, acknowledged QoS 1 traffic)
+			st.Res = "noresend"
+			first := map[int]bool{}
+			for _, pk := range cli.received() {
+				if pk.Qos != 1 {
+					continue
+				}
+				if first[pk.ID] && !acked[pk.ID] {
+					st.Res = "ok"
+				}
+				first[pk.ID] = true
+			}
 		}
 		if r := cli.ping(); r != "ok" {
 			st.Res = "barrier " + r
@@ -590,7 +606,24 @@ func c15RunSess(in c15SessIn) (obs c15SessObs) {
 	return
 }
 
+// c15GenStream: one message whose PUBACK is withheld, then a steady stream of further QoS 1 messages (each
+// acknowledged at once) less than a ticker period apart for about four periods: the withheld one must have been
+// retransmitted DURING the stream - retransmission of the oldest pending message does not depend on later traffic.
+func c15GenStream(r *vfRand) c15SessIn {
+	in := c15SessIn{SubQos: 1, Restore: r.Chance(1, 3)}
+	in.Ops = append(in.Ops, c15SessOp{Op: "pub", Qos: 1, Pay: r.PickInt(0, 1)})
+	n := r.Range(8, 10)
+	for j := 1; j <= n; j++ {
+		in.Ops = append(in.Ops, c15SessOp{Op: "pub", Qos: 1}, c15SessOp{Op: "ack", N: j}, c15SessOp{Op: "gap", N: 100})
+	}
+	in.Ops = append(in.Ops, c15SessOp{Op: "seen"}, c15SessOp{Op: "ack", N: 0}, c15SessOp{Op: "quiet"})
+	return in
+}
+
 func c15GenSess(r *vfRand, adv bool) c15SessIn {
+	if r.Chance(1, 8) {
+		return c15GenStream(r)
+	}
 	in := c15SessIn{SubQos: 1, Restore: r.Chance(1, 3)}
 	if r.Chance(1, 4) {
 		in.StartID = r.PickInt(65535, 65534, 65533, 65530)
